@@ -41,6 +41,7 @@ func (s *Session) AbortTransaction(context.Context) error {
 	// acquire lock
 	s.mutex.Lock()
 	defer s.mutex.Unlock()
+	verifPoint("session.abort.locked", s.engine)
 
 	// check if ended
 	if s.ended {
@@ -83,6 +84,7 @@ func (s *Session) CommitTransaction(context.Context) error {
 	// acquire lock
 	s.mutex.Lock()
 	defer s.mutex.Unlock()
+	verifPoint("session.commit.locked", s.engine)
 
 	// check if ended
 	if s.ended {
@@ -112,6 +114,7 @@ func (s *Session) EndSession(context.Context) {
 	// acquire lock
 	s.mutex.Lock()
 	defer s.mutex.Unlock()
+	verifPoint("session.end.locked", s.engine)
 
 	// check if ended
 	if s.ended {
@@ -155,6 +158,7 @@ func (s *Session) startTransaction(ctx context.Context, opts ...*options.Transac
 	// because Begin reads sess.Transaction() under e.mutex and would
 	// otherwise deadlock against this lock
 	s.mutex.Lock()
+	verifPoint("session.start.locked", s.engine)
 	if s.ended {
 		s.mutex.Unlock()
 		return ErrSessionEnded
@@ -172,6 +176,7 @@ func (s *Session) startTransaction(ctx context.Context, opts ...*options.Transac
 	// finalize under the lock; always clear the starting flag
 	s.mutex.Lock()
 	defer s.mutex.Unlock()
+	verifPoint("session.start.final", s.engine)
 	s.starting = false
 	if err != nil {
 		return err
